@@ -49,11 +49,13 @@ class ListProxy(list, ContainerValueMixin):
     def _is_validated(self, iterable: Any) -> bool:
         """
         :returns: whether the items of ``iterable`` can be taken over as they are: they were
-            validated by the same item field and are plain values. Configuration items are mutable
-            and belong to one list of one configuration, so they are always validated and adopted.
+            validated by the same item field for the same configuration and are plain values.
+            Configuration items are mutable and belong to one list of one configuration, so they
+            are always validated and adopted.
         """
         return (
             isinstance(iterable, ListProxy)
+            and iterable.cfg is self.cfg
             and iterable.item_field is self.list_field.field
             and isinstance(self.list_field.field, Field)
         )
